@@ -217,6 +217,86 @@ def dump_extract(fp, scope):
         return "ERR:" + exc_class(e)
 
 
+
+# ----------------------------------------------------------------------------- values that stress the text route
+# (own generator layer on top of fetch_common's: the printed-text clauses need values whose printing wraps, words
+#  spanning lines, and the quoted one-item lists "None" / "Auto" next to the special values None / Auto)
+TEXT_TYPES = ("words", "str", "strings", "qstr")
+PHRASES = ["Refinement of the high resolution data set,", "second attempt with tighter restraints", "run 7", "2024",
+           "a b", "merged with the low resolution pass", "x", "final", "see notes; keep", "alpha beta gamma delta",
+           "0123456789 0123456789 0123456789", "q"]
+NONE_AUTO_ITEMS = ['"None"', '"Auto"', '"auto"', '"NONE"', '"none"', '"AUTO"', "'Auto'", "'None'"]
+
+
+def text_defs(items, prefix=(), dis=False):
+    """[(components, item)] of the active text-typed master definitions (no disabled object on the way)"""
+    out = []
+    for it in items:
+        d = dis or bool(it[2])
+        p = prefix + (it[1],)
+        if it[0] == "d":
+            if not d and it[5] in TEXT_TYPES and "deprecated" not in it[3]:
+                out.append((p, it))
+        else:
+            out.extend(text_defs(it[4], p, d))
+    return out
+
+
+def phrase(rng, lo, hi):
+    s = rng.choice(PHRASES)
+    while len(s) < lo:
+        s += " " + rng.choice(PHRASES)
+    return s[:hi].rstrip() or "x"
+
+
+def wrap_value(rng):
+    """a value whose printed form is wider than the print width; mostly starting with a quoted word that spans lines"""
+    r = rng.random()
+    words = []
+    if r < 0.7:
+        words.append('"%s\n%s"' % (phrase(rng, 5, rng.randint(20, 60)), phrase(rng, 3, rng.randint(10, 55))))
+    n = rng.randint(1, 3) if r < 0.7 else rng.randint(6, 14)
+    for _ in range(n):
+        w = phrase(rng, 1, rng.randint(3, 24))
+        words.append('"%s"' % w if (" " in w or ";" in w or "," in w or rng.random() < 0.6) else w)
+    if r >= 0.7 and rng.random() < 0.4:
+        words.insert(rng.randrange(len(words)), '"%s\n%s"' % (phrase(rng, 3, 30), phrase(rng, 3, 30)))
+    return " ".join(words)
+
+
+def gen_case2(rng, floats=False, variables=None, max_sources=3, dup=True, profile="shape", special=0.35):
+    """fetch_common.gen_case plus, in a fraction [special] of the cases, text-typed parameters with default None / Auto
+    and an extra source assigning them wrapping / multi-line values or the quoted items "None" / "Auto" / ..."""
+    budget = [rng.randint(2, 11)]
+    m = fc.gen_master_items(rng, 0, budget, floats=floats, dup=dup)
+    paths = fc.master_paths(m)
+    if variables is None:
+        variables = rng.random() < 0.12
+    tdefs = text_defs(m)
+    do_special = bool(tdefs) and rng.random() < special
+    if do_special:
+        for p, it in tdefs:
+            if rng.random() < 0.5:
+                it[4] = rng.choice(["None", "Auto", "Auto", "none", "auto"])
+    ns = rng.choice([0, 1, 1, 1, 2, 2, 3, 4][: 4 + max_sources])
+    srcs = [fc.gen_source(rng, paths, variables, profile) for _ in range(ns)]
+    if do_special:
+        lines = []
+        for p, it in rng.sample(tdefs, min(len(tdefs), rng.randint(1, 2))):
+            for _ in range(rng.randint(1, 2) if it[3].get("multiple") == "True" else 1):
+                v = wrap_value(rng) if rng.random() < 0.5 else rng.choice(NONE_AUTO_ITEMS)
+                lines.append("%s = %s\n" % (".".join(p), v))
+        extra = "".join(lines)
+        if srcs and rng.random() < 0.5:
+            srcs[-1] = srcs[-1] + extra
+        else:
+            srcs.append(extra)
+    env = []
+    if variables and rng.random() < 0.5:
+        env = sorted([k, rng.choice(["E", "1", "e v"])] for k in set(rng.choice(["v", "w", "a"]) for _ in range(rng.randint(1, 2))))
+    kind = "float" if floats else "var" if variables else "special" if do_special else "plain"
+    return {"m": fc.render_master(m), "s": srcs, "env": env, "diff": 0, "kind": kind}
+
 # ----------------------------------------------------------------------------- object identity inside templates
 def nested_multiple_entries(master):
     """the .multiple entries lying inside a .multiple scope (at any depth), as objects"""
@@ -435,8 +515,8 @@ class Cycles(FetchStream):
         n = 1400 if tier == "quick" else 6500
         for i in range(n):
             r = rng.random()
-            c = fc.gen_case(rng, floats=(i % 10 == 9), variables=(False if r < 0.95 else None), dup=(r < 0.30),
-                            max_sources=3, profile="shape")
+            c = gen_case2(rng, floats=(i % 10 == 9), variables=(False if r < 0.95 else None), dup=(r < 0.30),
+                          max_sources=3, profile="shape")
             c["k"] = rng.randint(1, 4)
             yield c
 
@@ -482,6 +562,13 @@ CORPUS = [
        ["s { b { c = 0 } }\n"], 2),
     # no source at all
     _c("a = 1\n  .type = int\ns { b = x y\n c = *p q\n  .type = choice\n}\n", [], 2),
+    # a quoted word spanning two lines followed by further quoted words: the printed value must not be wrapped right
+    # after it (formerly F1); long values wrap
+    _c("job {\n  title = None\n    .type = strings\n  tag = 0\n    .type = int\n    .multiple = True\n}\n",
+       ["job {\n  title = \"Refinement of the high resolution data set,\nsecond attempt with tighter restraints\" \"run 7\" \"2024\"\n  tag = 5\n  tag = 6\n}\n"], 3),
+    _c("t = a\nu = None\n  .type = str\n", ["t = alpha beta gamma delta \"see notes; keep\" 0123456789 0123456789 0123456789 final q x \"a b\" 2024 merged\nu = \"x\ny\" \"merged with the low resolution pass\" \"second attempt with tighter restraints\"\n"], 2),
+    # the quoted items "Auto" / "None" are ordinary strings, not the special values
+    _c("labels = Auto\n  .type = strings\ntags = Auto\nn = None\n  .type = strings\n", ["labels = \"Auto\"\ntags = \"auto\"\nn = \"None\"\n"], 2),
     # deprecated: outside the domain (hidden in the printed text by design)
     _c("a = 1\n  .deprecated = True\nb = 2\n", ["a = 3\n"], 1),
 ]
